@@ -32,7 +32,7 @@ SCHEMA = {
     'pivot_root': 'sss', 'change_profile': 'sss', 'mqueue': 'lsss', 'io_uring': 'ls', 'signal': 'lls',
     'ptrace': 'ls', 'unix': 'lssssssss', 'dbus': 'lsssssss', 'rlimit': 'sss', 'userns': 'b', 'all': '',
     'file': 'bsls', 'link': 'bbss', 'comment': '', 'abi': 'sb', 'alias': 'ss', 'include': 'bsb',
-    'variable': 'slb', 'hat': 's', 'profile': 'sl',
+    'variable': 'slb', 'hat': 's', 'profile': 'slll',
 }
 HASQ = {'capability', 'network', 'mount', 'umount', 'remount', 'pivot_root', 'change_profile', 'mqueue', 'io_uring',
         'signal', 'ptrace', 'unix', 'dbus', 'userns', 'file', 'link'}
@@ -54,11 +54,23 @@ ODD_STR = ['/Foo', '/foo', '/ETC/a', '@{HOME}/.x', '@{PROC}/1', '/a b', '/a\tb',
 
 
 class Gen:
-    def __init__(self, rng, tables):
+    def __init__(self, rng, tables, profile_extras=False):
+        # flags and extended attributes of profile rules: generated for the compare/sort suites only (Profile.Merge sorts the
+        # flags of its receiver in place even when it refuses the merge, which the merge model does not follow)
+        self.profile_extras = profile_extras
         self.rng = rng
         self.req = tables['Aa']['Requirements']
-        self.alpha = set(base64.b64decode(tables['Aa']['StringAlphabet']).decode('latin-1'))
-        self.file_alpha = tables['Aa']['FileAlphabet']
+        # the known classes that depend on a table (letter case / foreign bytes, mixed file prefixes) are defined by the tables
+        # as they were when the findings were recorded, not by whatever the tables of the tree say now
+        import json as _json
+        try:
+            pin = _json.load(open(os.path.join(os.path.dirname(os.path.dirname(os.path.abspath(__file__))), 'known_findings.json'))).get('pinned_tables', {})
+        except (OSError, ValueError):
+            pin = {}
+        self.alpha = set(base64.b64decode(pin.get('StringAlphabet', tables['Aa']['StringAlphabet'])).decode('latin-1'))
+        self.file_alpha = pin.get('FileAlphabet', tables['Aa']['FileAlphabet'])
+        self.tables_differ_from_pin = (pin.get('StringAlphabet', tables['Aa']['StringAlphabet']) != tables['Aa']['StringAlphabet']
+                                       or pin.get('FileAlphabet', tables['Aa']['FileAlphabet']) != tables['Aa']['FileAlphabet'])
         self.code_literals, self.shipped_includes = harvest()
         self.harvested = self.code_literals + self.shipped_includes
 
@@ -86,6 +98,10 @@ class Gen:
         if kind == 'variable':
             return [r.choice(CANON_STR) for _ in range(r.randint(0, 3))]
         if kind == 'profile':
+            if idx == 2:
+                return r.sample(['complain', 'attach_disconnected', 'mediate_deleted'], r.randint(0, 2)) if self.profile_extras else []
+            if idx == 3:
+                return sorted(r.sample(['security.tagged=allowed', 'user.trust=tier1', 'security.apparmor=x', 'user.a=b'], r.randint(0, 3))) if self.profile_extras else []
             return [r.choice(CANON_STR) for _ in range(r.randint(0, 2))]
         tk = LISTREQ[(kind, idx)]
         vals = list(self.req[tk[0]][tk[1]])
@@ -107,6 +123,10 @@ class Gen:
                 f.append(self.lst(kind, i))
             else:
                 f.append(r.random() < 0.3)
+        if kind == 'file' and r.random() < 0.2:
+            # paths at the boundary of the prefix table: an entry itself, an entry followed by a glob, an alternation, a letter
+            e = r.choice([x for x in self.file_alpha if x.startswith('/')] or ['/etc'])
+            f[1] = e + r.choice(['', '{,/**}', '*', '{,/}', 'x', '/'])
         if kind == 'include' and r.random() < 0.4:
             # include targets the code names itself (magic entries of the include order), against each other
             magic = [v for v in self.code_literals if v.startswith('abstractions/') or v.startswith('tunables/')]
